@@ -64,11 +64,21 @@ class Ctx:
     def zygote(self, flavour, tool):
         k = (flavour, tool)
         if k not in self.zy:
-            self.zy[k] = proto.Zygote(self.builds[flavour][tool])
+            if flavour == "valgrind":
+                # memcheck over the optimised (plain) build
+                if "plain" not in self.builds:
+                    self.builds["plain"] = build.ensure_build("plain")
+                self.zy[k] = proto.Zygote(self.builds["plain"][tool], valgrind=True)
+            else:
+                self.zy[k] = proto.Zygote(self.builds[flavour][tool])
         return self.zy[k]
 
     def run(self, world, flavour="asan"):
         w = {k: v for k, v in world.items() if not k.startswith("_")}
+        if flavour == "valgrind":
+            # the simulator's own pre-fill and probe would make indeterminate memory look defined
+            w["fill_stack"] = False
+            w["probe"] = False
         tool = w["tool"]
         last = None
         for attempt in range(3):
